@@ -6,12 +6,13 @@ CONSTANTS
   Errs = {"e1", "e2"}
   Invs = {"i1"}
   Conns = {"c1", "c2"}
-  OmitChoices = {0, 2}
+  OmitChoices = {2}
   InitStamps = {1}
   NoDefault = {"p1"}
   InitScopeSets = {{}, {"all"}}
   HiddenChoices = {{}}
   ActScopes = {"p1"}
+  RepKinds = {}
   MaxNow = 3
   Depth = 7
   FullParams = {"p1"}
@@ -19,6 +20,7 @@ CONSTANTS
   GenConns = {"c2"}
   GenDefaults = {"b"}
   GenLiteOmit = {2}
+  GenExtra = {"At", "Nest", "Deact", "Untouched"}
 CONSTRAINT Bound
 ACTION_CONSTRAINT EmitStep
 VIEW AbstractView
